@@ -46,6 +46,9 @@ func solveAll(results []*FuncResult, quickMs, fullMs int) {
 }
 
 func main() {
+	if len(os.Args) > 1 && os.Args[1] == "check" {
+		os.Exit(runCheck(os.Args[2:]))
+	}
 	repo := flag.String("repo", "/repo", "repository root")
 	fnre := flag.String("fn", "", "regexp over function display names (pkg.Key)")
 	dump := flag.String("dump", "", "dump SMT script of the obligation with this name")
